@@ -606,6 +606,24 @@ def rule_sent1(ctx, rels):
                     sentinel = True
                 if sentinel:
                     tables[st.targets[0].id] = st
+            # the loop form of the same table: `T = []` ... `T.append(<index>
+            # if .. else -1)` / `T.append(-1)` next to other appends
+            for c in ast.walk(f.node):
+                if isinstance(c, ast.Call) and isinstance(
+                        c.func, ast.Attribute) and c.func.attr == "append" \
+                        and isinstance(c.func.value, ast.Name) and c.args \
+                        and (_has_minus_one_arm(c.args[0])
+                             or const_value(c.args[0]) == -1):
+                    nm = c.func.value.id
+                    init = [st for st in ast.walk(f.node)
+                            if isinstance(st, ast.Assign)
+                            and len(st.targets) == 1
+                            and isinstance(st.targets[0], ast.Name)
+                            and st.targets[0].id == nm
+                            and isinstance(st.value, ast.List)
+                            and not st.value.elts]
+                    if init and nm not in tables:
+                        tables[nm] = init[0]
             if not tables:
                 continue
             r.analysed(f)
@@ -752,3 +770,80 @@ def rule_bfs4(ctx):
     else:
         r.ok("BFS4", inst, loc(f, f.node), "",
              "index loop / FIFO order" if not pops else "FIFO work-list")
+
+
+def rule_diag1(ctx):
+    r = ctx.r
+    r.rule("DIAG1", "a Coxeter DIAGRAM lists only the edges with label >= 3 "
+                    "(or infinity): two nodes that are not joined commute, "
+                    "label 2. Where from_diagram builds the Coxeter matrix "
+                    "from the edge dictionary it looks a PAIR up with a "
+                    "default of 2 (`.get(g2, 2)`, a fill loop with "
+                    "setdefault); a bare `d[g1][g2]` over all pairs raises "
+                    "KeyError for every diagram that is not complete -- "
+                    "A_n for n >= 3, the path 5-3-4, ...")
+    COXF = "geometry_tools/coxeter.py"
+    f = ctx.p.get_function(COXF, "CoxeterGroup.from_diagram")
+    r.analysed(f)
+    # loop / comprehension variables that run over the list of generators
+    over = {}
+    for x in ast.walk(f.node):
+        gens = []
+        if isinstance(x, ast.For):
+            gens = [(x.target, x.iter)]
+        elif isinstance(x, (ast.ListComp, ast.GeneratorExp, ast.SetComp,
+                            ast.DictComp)):
+            gens = [(g.target, g.iter) for g in x.generators]
+        for tg, it in gens:
+            if isinstance(tg, ast.Name):
+                over[tg.id] = dotted(it)
+    fills_default = any(
+        isinstance(c, ast.Call) and isinstance(c.func, ast.Attribute)
+        and c.func.attr == "setdefault" and len(c.args) == 2
+        and const_value(c.args[1]) == 2 for c in ast.walk(f.node))
+    n = 0
+    for sub in ast.walk(f.node):
+        if not (isinstance(sub, ast.Subscript) and isinstance(sub.ctx, ast.Load)
+                and isinstance(sub.value, ast.Subscript)
+                and isinstance(sub.slice, ast.Name)
+                and isinstance(sub.value.slice, ast.Name)):
+            continue
+        a, b = sub.value.slice.id, sub.slice.id
+        if a in over and b in over and over[a] == over[b] and a != b:
+            n += 1
+            inst = "from_diagram:pair-lookup"
+            if fills_default:
+                r.ok("DIAG1", inst, loc(f, sub), dotted(sub)[:60],
+                     "missing pairs are filled with 2 beforehand")
+            else:
+                r.violation(
+                    "DIAG1", f"{f.fq}|pair", loc(f, sub), dotted(sub)[:80],
+                    f"`{dotted(sub)[:50]}` is evaluated for EVERY pair of "
+                    "generators, but only the edges of the diagram were "
+                    "stored: CoxeterGroup([('a','b',5),('b','c',3),"
+                    "('c','d',4)]) raises KeyError('c') -- the diagram "
+                    "route only works for complete diagrams", instance=inst)
+    for c in ast.walk(f.node):
+        if isinstance(c, ast.Call) and isinstance(c.func, ast.Attribute) \
+                and c.func.attr == "get" and isinstance(
+                    c.func.value, ast.Subscript) and c.args \
+                and isinstance(c.args[0], ast.Name) \
+                and c.args[0].id in over \
+                and isinstance(c.func.value.slice, ast.Name) \
+                and c.func.value.slice.id in over:
+            n += 1
+            d = const_value(c.args[1]) if len(c.args) > 1 else None
+            inst = "from_diagram:pair-lookup"
+            if d == 2:
+                r.ok("DIAG1", inst, loc(f, c), dotted(c)[:60],
+                     "non-adjacent nodes get the label 2")
+            else:
+                r.violation(
+                    "DIAG1", f"{f.fq}|default", loc(f, c), dotted(c)[:80],
+                    f"missing pairs get `{dotted(c.args[1]) if len(c.args) > 1 else 'None'}`; "
+                    "two nodes that are not joined commute: the label is 2",
+                    instance=inst)
+    if n == 0:
+        r.note("DIAG1", loc(f, f.node), "from_diagram",
+               "no lookup of a generator pair in the edge dictionary "
+               "(not judged)")
